@@ -66,9 +66,10 @@ class Replay:
                         a = _default_of(g, pn)
                     if a is not None:
                         new_env[pn] = sym.lin(a)
-                frames.append((cur_fn, {k: v for k, v in sym.env.items()}, sym.scope, same_self))
+                frames.append((cur_fn, {k: v for k, v in sym.env.items()}, sym.scope, same_self, sym.noscope))
                 sym.env = new_env
                 sym.scope = "%s#%d:" % (g.name, len(frames))
+                sym.noscope = {"self", "cls"} if same_self else set()
                 sym.set_function(g)
                 cur_fn = g
                 continue
@@ -78,7 +79,8 @@ class Replay:
                 continue
             if ev.kind == "exit":
                 if frames:
-                    outer_fn, outer_env, outer_scope, same_self = frames.pop()
+                    outer_fn, outer_env, outer_scope, same_self, outer_noscope = frames.pop()
+                    sym.noscope = outer_noscope
                     ret = sym.call_values.pop(("ret", len(frames) + 1), None)
                     updates = {k: v for k, v in sym.env.items() if same_self and (k.startswith("self.") or k.startswith("cls."))}
                     sym.env = outer_env
